@@ -12,6 +12,7 @@ BUILDERS = {
     "verifh": lambda: V.build_harness("verifh"),
     "verifs": V.build_sched_harness,
     "verifr": V.build_race_harness,
+    "verif26": V.build_go126_harness,
 }
 
 EXTRA_STAGES = {}
@@ -61,6 +62,18 @@ SUBEV_RULE = (" subscription-events: hubs with subscription tracking on (every 7
               "active=true / active=false per (subscriber, selector) in that order, payload and type, the restricted watcher sees exactly its selector's events.")
 
 PROPS = {
+    "C16": {
+        "binaries": ["verif26"],
+        "stages": [{"kind": "cases", "name": "virtual-clock", "driver": "C16", "binary": "verif26", "gotest": "TestC16", "n": {"quick": 6, "thorough": 60}}],
+        "rule": "the real SubscribeHandler under testing/synctest's virtual clock (Go 1.26) with a ResponseWriter that enforces write deadlines against that clock: "
+                "every combination of write timeout {0, 3 s, 20 s} x dispatch timeout {0, 1 s, 7 s} x heartbeat {0, 1.7 s, 30 s} x token expiry {absent, 10 s, 40 s} "
+                "(dispatch timeout <= write timeout), each with n random publish timings (0-4 updates at distinct millisecond residues so that no two timers tie); "
+                "observed: the virtual instant of every successful write and of the handler's return, up to a 60 s horizon; compared with the timed automaton and "
+                "judged by the property predicate. non-trivial = at least one write and the hub ended the stream itself",
+        "trusted": ["testing/synctest (virtual time, Go 1.26 runtime); the clock-enforcing ResponseWriter stands for net/http's deadline handling",
+                    "Go's select picks any ready case: configurations where two timers are due at the same instant are not generated"],
+        "assumptions": ["writes take no time in the model; dispatch timeout <= write timeout"],
+    },
     "C17": {"stages": [SUBEV_STAGE, HUB_STAGE], "rule": SUBEV_RULE + " hub-histories: " + HUB_RULE, "trusted": HUB_TRUST + ["encoding/json document layout"],
             "assumptions": ["the hub is not closed while events are due (a closed transport refuses the dispatch of the event itself)"]},
     "C01": {"binaries": ["verifh", "verifs"],
